@@ -146,6 +146,7 @@ def run(ctx: Ctx, rep: Report) -> None:
     rep.rule("C20-R4", "no eager recursion on the decode path", floor=1)
     rep.rule("C20-R5", "a lazily decoded SEQUENCE is walked once: no indexing / len() / .value of it inside a loop (each access re-decodes the whole value: quadratic time in the datagram size)", floor=1)
     rep.rule("C20-R8", "no datagram is rendered recursively (pretty / repr of the decoded tree) unless debug logging asks for it", floor=1)
+    rep.rule("C20-R9", "no response keeps a walk asking for the same OIDs for ever: every fetcher refuses a response that does not advance, the continuation list is renewed each round (shared with C03-R1/R2/R3/R5)", floor=2)
     rep.rule("C20-R7", "no reply makes the UDP sender spin: the retry loop returns at the first reply and otherwise uses up one retry per iteration (shared with C13-R2)", floor=7)
     rep.rule("C20-R6", "a failed exchange leaves no per-datagram state behind: every store to shared state in the package is a justified, operation-independent instance (shared with C14-R1)", floor=10)
     rep.assumptions += [
@@ -338,6 +339,10 @@ def run(ctx: Ctx, rep: Report) -> None:
     # returns or consumes one of the `retries`
     sub = ctx.sub_run("c13", rep)
     rep.adopt_rules(sub, "C20-R7", ["C13-R2"])
+    # a response that does not advance cannot keep a walk requesting the same OIDs forever (the client hanging on a
+    # replayed / misbehaving datagram): the progress guard of every fetcher and the renewal of the continuation list
+    sub = ctx.sub_run("c03", rep)
+    rep.adopt_rules(sub, "C20-R9", ["C03-R1", "C03-R2", "C03-R3", "C03-R5"])
 
     # ------------------------------------------------------------ R4
     cyc = []
